@@ -152,4 +152,98 @@ theorem relevantOver_uniform (c : Coll) (g : Nat) (names : List Nat) (M : List S
         · exact absurd (by rw [Bool.and_eq_true]; exact ⟨by simp [hg], hn⟩) hit
         · exact h3 (Or.inr ⟨k', hk'', hg, hn⟩)
 
+/-! ### object identity under `deepcopy` -/
+
+theorem touchAt_length (i : Nat) (h : Heap) : (touchAt i h).length = h.length := by
+  induction h generalizing i with
+  | nil => cases i <;> rfl
+  | cons o os ih => cases i with
+    | zero => rfl
+    | succ i => simp [touchAt, ih]
+
+theorem touchAt_opts (i : Nat) (h : Heap) : (touchAt i h).map (·.opts) = h.map (·.opts) := by
+  induction h generalizing i with
+  | nil => cases i <;> rfl
+  | cons o os ih => cases i with
+    | zero => rfl
+    | succ i => simp [touchAt, ih]
+
+theorem take_touchAt {n i : Nat} (hle : n ≤ i) (h : Heap) : (touchAt i h).take n = h.take n := by
+  induction h generalizing i n with
+  | nil => cases i <;> rfl
+  | cons o os ih =>
+    cases n with
+    | zero => simp
+    | succ n =>
+      cases i with
+      | zero => omega
+      | succ i => simp [touchAt, ih (Nat.le_of_succ_le_succ hle)]
+
+/-- `refsOf` only looks at the option dicts -/
+theorem refsOf_congr {h h' : Heap} (e : h.map (·.opts) = h'.map (·.opts)) (i : Nat) : refsOf h i = refsOf h' i := by
+  unfold refsOf
+  have : (h[i]?).map (·.opts) = (h'[i]?).map (·.opts) := by
+    rw [← List.getElem?_map, ← List.getElem?_map, e]
+  cases h1 : h[i]? <;> cases h2 : h'[i]? <;> simp [h1, h2] at this ⊢
+  rw [this]
+
+/-- objects at positions `≥ n` only refer to positions `≥ n` -/
+def Sep (n : Nat) (h : Heap) : Prop := ∀ i, n ≤ i → ∀ r ∈ refsOf h i, n ≤ r
+
+theorem foldl_touchAt_facts (n : Nat) : ∀ (roots : List Nat) (h : Heap), (∀ r ∈ roots, n ≤ r) →
+    (roots.foldl (fun h i => touchAt i h) h).take n = h.take n ∧
+    (roots.foldl (fun h i => touchAt i h) h).map (·.opts) = h.map (·.opts) := by
+  intro roots
+  induction roots with
+  | nil => intro h _; exact ⟨rfl, rfl⟩
+  | cons r rs ih =>
+    intro h hr
+    simp only [List.foldl_cons]
+    obtain ⟨h1, h2⟩ := ih (touchAt r h) (fun x hx => hr x (by simp [hx]))
+    exact ⟨h1.trans (take_touchAt (hr r (by simp)) h), h2.trans (touchAt_opts r h)⟩
+
+theorem take_touch (n : Nat) : ∀ (fuel : Nat) (roots : List Nat) (h : Heap), (∀ r ∈ roots, n ≤ r) → Sep n h →
+    (touch fuel roots h).take n = h.take n := by
+  intro fuel
+  induction fuel with
+  | zero => intro roots h _ _; rfl
+  | succ fuel ih =>
+    intro roots h hr hs
+    simp only [touch]
+    obtain ⟨h1, h2⟩ := foldl_touchAt_facts n roots h hr
+    have hs' : Sep n (roots.foldl (fun h i => touchAt i h) h) := by
+      intro i hi r hrr
+      rw [refsOf_congr h2 i] at hrr
+      exact hs i hi r hrr
+    rw [ih _ _ ?_ hs', h1]
+    intro r hrr
+    obtain ⟨i, hi, hri⟩ := List.mem_flatMap.mp hrr
+    exact hs' i (hr i hi) r hri
+
+/-- in the deep copy made by the code, the copies refer to copies only -/
+theorem sep_deepcopy (h : Heap) : Sep h.length (deepcopyHeap true h) := by
+  intro i hi r hr
+  unfold refsOf deepcopyHeap at hr
+  simp only [if_true] at hr
+  rw [List.getElem?_append_right hi] at hr
+  cases hg : (h.map (copyObj h.length))[i - h.length]? with
+  | none => simp [hg] at hr
+  | some o =>
+    simp only [hg] at hr
+    rw [List.getElem?_map] at hg
+    cases ho : h[i - h.length]? with
+    | none => simp [ho] at hg
+    | some o' =>
+      simp only [ho, Option.map_some, Option.some.injEq] at hg
+      subst hg
+      simp only [copyObj, List.flatMap_map, List.mem_flatMap] at hr
+      obtain ⟨kv, _, hkv⟩ := hr
+      cases hv : kv.2 with
+      | scalar n => simp [hv, shiftVal] at hkv
+      | handle x => simp [hv, shiftVal] at hkv
+      | feats ids =>
+        simp only [hv, shiftVal, List.mem_map] at hkv
+        obtain ⟨a, _, rfl⟩ := hkv
+        omega
+
 end Session
